@@ -130,6 +130,9 @@ fn programs(c: &Caps, mem: &str, n: u64) -> Vec<(&'static str, String, Option<u6
                 v.push(("org+nop", format!("{}.org {}\nnop\n", dev, n - 1), None));
             }
             v.push(("dw-blocks", format!("{}{}", dev, dw_block(n)), None));
+            if n >= 1 && c.ram >= 1 {
+                v.push(("org-then-left-at-once+nop", format!("{}.org {}\n.dseg\n.cseg\nnop\n", dev, n - 1), None));
+            }
             // the counter is only moved there, nothing is placed: capacity is a legal position
             v.push(("position-only:org+label", format!("{}.org {}\nend_of_flash_l:\n", dev, n), None));
             if let Some(i2) = c.two_word {
@@ -169,6 +172,9 @@ fn programs(c: &Caps, mem: &str, n: u64) -> Vec<(&'static str, String, Option<u6
                 v.push(("org+db", format!("{}.eseg\n.org {}\n.db 1\n", dev, n - 1), None));
                 v.push(("position-only:org+label", format!("{}.eseg\n.org {}\nend_of_eeprom_l:\n", dev, n), None));
                 v.push(("byte", format!("{}.eseg\n.byte {}\n", dev, n), None));
+                // the position is set and the segment left at once: it still counts when the
+                // segment is entered again
+                v.push(("org-then-left-at-once+db", format!("{}.eseg\n.org {}\n.cseg\nnop\n.eseg\n.db 1\n", dev, n - 1), None));
                 let mut s = format!("{}.eseg\n{}", dev, dw_block(n / 2));
                 if n % 2 == 1 {
                     s.push_str(".db 7\n");
@@ -189,6 +195,11 @@ fn programs(c: &Caps, mem: &str, n: u64) -> Vec<(&'static str, String, Option<u6
                     v.push(("byte-then-org-back-in-a-new-dseg", format!("{}.dseg\nbig_v: .byte {}\n.cseg\nnop\n.dseg\n.org {}\nsmall_v: .byte 2\n", dev, n, c.ram_start + 1), None));
                 }
                 v.push(("org+byte", format!("{}.dseg\n.org {}\n.byte 1\n", dev, c.ram_start + n - 1), Some(n)));
+                if n <= 70_000 {
+                    // the usual "variable" macro, once per byte of the memory
+                    v.push(("one-byte-variables-from-a-macro", format!("{}.macro var_q\n.dseg\n.byte 1\n.cseg\n.endm\n{}", dev, "var_q\n".repeat(n as usize)), Some(n)));
+                }
+                v.push(("org-then-left-at-once+byte", format!("{}.dseg\n.org {}\n.cseg\nnop\n.dseg\n.byte 1\n", dev, c.ram_start + n - 1), Some(n)));
             } else {
                 v.push(("empty", format!("{}.dseg\nv:\n", dev), Some(0)));
             }
